@@ -41,8 +41,8 @@ KStore(m, ply) ==
 IsKiller(k, m, ply) == ply < MaxPly /\ \E j \in 1..Len(k[ply]) : k[ply][j] = m
 
 (* ---------------- history heuristic: depth squared per cut-off, saturating; halved by every search *)
-Sat(x) == IF x > Cap THEN Cap ELSE x
-HRecord(m, d) == /\ hist' = [hist EXCEPT ![m] = Sat(hist[m] + d * d)]
+SatAdd(x, inc) == IF x > Cap - inc THEN Cap ELSE x + inc      \* (written so that no intermediate value exceeds Cap)
+HRecord(m, d) == /\ hist' = [hist EXCEPT ![m] = SatAdd(hist[m], d * d)]
                  /\ UNCHANGED <<kill, rep>>
 HAge == /\ hist' = [m \in Moves |-> hist[m] \div 2]
         /\ UNCHANGED <<kill, rep>>
